@@ -260,7 +260,30 @@ def build_hook_world(live) -> World:
         if isinstance(obj, type):
             tns[name] = VClass(name, world.class_id(name))
     world.namespaces["types"] = tns
-    world.namespaces["hooks"] = {"lsp_types": VModule("types"), "attrs": VModule("attrs"), "cattrs": VModule("cattrs"), "sys": VModule("sys")}
+    hns: Dict[str, V] = {"lsp_types": VModule("types"), "attrs": VModule("attrs"), "cattrs": VModule("cattrs"), "sys": VModule("sys")}
+    # module-level names of the live _hooks module: sibling modules of the package expose their plain constants
+    # (e.g. validators.UINTEGER_MAX_VALUE), plain constants are themselves
+    import sys as _sys
+    import types as _types
+
+    hm = _sys.modules.get("lsprotocol._hooks")
+    for name, obj in (vars(hm).items() if hm is not None else []):
+        if name in hns or name.startswith("__"):
+            continue
+        if isinstance(obj, _types.ModuleType) and obj.__name__.startswith("lsprotocol.") and obj is not live.types:
+            mns: Dict[str, V] = {}
+            for k, v in vars(obj).items():
+                cv = _closure_value(world, v) if not k.startswith("__") else None
+                if cv is not None:
+                    mns[k] = cv
+            short = obj.__name__.split(".")[-1]
+            world.namespaces[f"pkg.{short}"] = mns
+            hns[name] = VModule(f"pkg.{short}")
+        else:
+            cv = _closure_value(world, obj)
+            if cv is not None and not isinstance(obj, type):
+                hns[name] = cv
+    world.namespaces["hooks"] = hns
     return world
 
 
@@ -495,6 +518,19 @@ class ReadingChecker:
         return FALSE
 
 
+def _closure_value(world: World, val) -> Optional[V]:
+    """Symbolic value of a closure cell's content: classes of lsprotocol.types, and plain constants."""
+    from pyvc.symex import VClass, const_value
+
+    if isinstance(val, type) and getattr(val, "__module__", "") == "lsprotocol.types":
+        return VClass(val.__name__, world.class_id(val.__name__))
+    if val is None or isinstance(val, (bool, int, float, str)):
+        return const_value(val)
+    if isinstance(val, (tuple, list)) and all(x is None or isinstance(x, (bool, int, float, str)) for x in val):
+        return const_value(val)
+    return None
+
+
 def describe_reading(r) -> str:
     if isinstance(r, VNone):
         return "None"
@@ -529,7 +565,23 @@ def verify_site(live, mm: MetaModel, world: World, sources: HookSources, decl_by
             res.unsupported = "source node of the handler not found"
             return res
         res.source = f"{HOOKS_REL}:{node.lineno}"
-        fi = FunctionInfo(f"{HOOKS_REL}::{site.handler_name}", node, None, HOOKS_REL, "hooks", closure={"converter": VOpaque("converter")}, inline=True)
+        closure: Dict[str, V] = {"converter": VOpaque("converter")}
+        # free variables of the live function object: what the cells hold NOW (late binding included) is what the call will see
+        try:
+            fn = site.handler
+            for name, cell in zip(fn.__code__.co_freevars, fn.__closure__ or ()):
+                if name in closure:
+                    continue
+                try:
+                    val = cell.cell_contents
+                except ValueError:
+                    continue
+                cv = _closure_value(world, val)
+                if cv is not None:
+                    closure[name] = cv
+        except AttributeError:
+            pass
+        fi = FunctionInfo(f"{HOOKS_REL}::{site.handler_name}", node, None, HOOKS_REL, "hooks", closure=closure, inline=True)
     elif site.handler_kind == "default_dis":
         src, info = default_dis_source(site)
         res.extra["decision_list"] = info
